@@ -3,7 +3,7 @@
     the extracted inductive types.  No Extract Constant.  *)
 Require Extraction.
 Require Import ExtrOcamlBasic.
-From CV Require Import Model.Qualtrim Model.Align Model.Adapters Model.Kmer Model.Pipeline Model.Paired Model.PipelineRun Model.Parser Model.Runner Model.RunnerInst Model.Format.
+From CV Require Import Model.Qualtrim Model.Align Model.Adapters Model.Kmer Model.Pipeline Model.Paired Model.PipelineRun Model.Parser Model.Runner Model.RunnerInst Model.Format Model.Index.
 Extraction Blacklist List String Int.
 Set Extraction KeepSingleton.
 Extraction "model.ml"
@@ -14,4 +14,5 @@ Extraction "model.ml"
   run_cli process_cli best_match match_and_trim revcomp_stage
   make_from_spec mkG
   prun_cli process_pair_cli mkPO
-  validate_trace detect_format output_format.
+  validate_trace detect_format output_format
+  index_match index_lookup index_lengths mkIad.
